@@ -324,7 +324,7 @@ SHAPES = ["dyn-tail-optional", "nested-dyn-first", "nested-dyn-middle", "block-a
           "union-arm-struct-with-optional", "optional-wide-and-enum", "ext-arrays-split", "greedy-of-dynamic-structs",
           "limited-of-struct-with-optional", "nested-dyn-then-optional", "array-of-unions", "union-in-union",
           "typedef-enum-arrays", "nested-limited-composites", "shared-sizer-bytes-last", "dyn-struct-embedded-twice",
-          "union-wide-arm-low-align", "optional-union", "typedef-chain-sizer"]
+          "union-wide-arm-low-align", "optional-union", "typedef-chain-sizer", "array-of-big-elements"]
 
 
 def _gen_shape(tape, env):
@@ -336,12 +336,14 @@ def _gen_shape(tape, env):
     cnt = tape.pick(["u8", "u16", "u32"])
     needs = {"dyn-tail-optional": ["arr_dynamic"], "block-align-decreasing": ["arr_dynamic"],
              "greedy-of-dynamic-structs": ["arr_dynamic", "arr_greedy"], "shared-sizer-bytes-last": ["bytes"],
-             "dyn-struct-embedded-twice": ["arr_dynamic"]}
+             "dyn-struct-embedded-twice": ["arr_dynamic"], "array-of-big-elements": ["arr_dynamic"]}
     forbid = env.feats.get("_forbid", ())
     allowed = [x for x in SHAPES if not any(n in forbid for n in needs.get(x, ()))]
     if env.cpp:     # the C++ full generator refuses arrays sharing a sizer and sizers of a typedef'd type
         allowed = [x for x in allowed if x not in ("shared-sizer-bytes-last", "typedef-chain-sizer")]
-    k = allowed[tape.draw(len(allowed))]
+    # the C++ peer sees few schemas: there the shapes that only it can judge (allocation by element size) weigh more
+    weights = [3 if (env.cpp and x == "array-of-big-elements") else 1 for x in allowed]
+    k = allowed[tape.weighted(weights)]
     if k == "dyn-tail-optional":
         _add_struct(env, [_m("f1", small, "dynamic"), _m("f2", small2, opt=True)], DYNAMIC)
     elif k in ("nested-dyn-first", "nested-dyn-middle", "nested-dyn-then-optional"):
@@ -447,13 +449,18 @@ def _gen_shape(tape, env):
         env.types[t1] = dict(env.types[cnt], typedef=True)
         env.order.append(t1)
         _add_struct(env, [_m("f1", t1), _m("f2", small, "ext", sizer="f1"), _m("f3", t1)], DYNAMIC)
+    elif k == "array-of-big-elements":
+        # an element that is large on the wire: what a decoder may allocate for a counter is bounded by the input only
+        # if it divides by the element size
+        big = _add_struct(env, [_m("f1", "u8", "fixed", 3000 + 1000 * tape.draw(3)), _m("f2", small)], FIXED)
+        _add_struct(env, [_m("f1", big, "dynamic"), _m("f2", "u8")], DYNAMIC)
     elif k == "limited-of-struct-with-optional":
         item = _add_struct(env, [_m("f1", small, opt=True), _m("f2", "u8")], FIXED)
         _add_struct(env, [_m("f1", "u8"), _m("f2", item, "limited", 2), _m("f3", item, "fixed", 2), _m("f4", small)], FIXED)
     return k
 
 
-def gen_schema(tape, cpp=False, max_defs=9, feats=None):
+def gen_schema(tape, cpp=False, max_defs=9, feats=None, shape_chance=(1, 4)):
     """Draw a valid schema. cpp=True restricts to what the C++ full generator accepts."""
     if feats is None:
         feats = draw_features(tape)
@@ -471,7 +478,7 @@ def gen_schema(tape, cpp=False, max_defs=9, feats=None):
         k = tape.weighted(weights) if sum(weights[:4]) else 4
         [_gen_const, _gen_enum, _gen_typedef, _gen_union, _gen_struct][k](tape, env)
     shape = None
-    if tape.chance(1, 4):
+    if tape.chance(*shape_chance):
         shape = _gen_shape(tape, env)
     if shape is None or tape.chance(1, 2):
         _gen_struct(tape, env)
